@@ -43,7 +43,7 @@ def wd_tod(c, t):
         return t.weekday(), t.hour * 3600 + t.minute * 60 + t.second + t.microsecond / 1e6
     for a in time_axioms(t.t):
         c.assume(a)
-    return SymNum(z3.ToReal((DAYF(t.t) + 3) % 7)), SymNum(TODF(t.t))
+    return SymNum(z3.ToReal((DAYF(t.t) + 3) % 7)), SymNum(TODF(t.t))      # of the INSTANT, i.e. in UTC
 
 
 def num_map(c, name, fields=('',), gen=None, pgen=None):
